@@ -595,6 +595,10 @@ class UnknownMetaMessage(MetaMessage):
     def __setattr__(self, name, value):
         # This doesn't do any checking.
         # It probably should.
+        if name == 'data':
+            # Stored as in __init__(): an immutable tuple. (A list here
+            # made the frozen version of the message unhashable.)
+            value = tuple(value)
         vars(self)[name] = value
 
     def bytes(self):
